@@ -63,6 +63,26 @@ Definition c17_static_pattern (name : text) : text := c17_add_slash name ++ [42]
 Definition c17_static_adds (stmts : list (text * text * bool)) : list reg :=
   fold_left (fun regs s => c17_static_add regs (fst (fst s)) (snd (fst s)) (snd s)) stmts [].
 
+(* ------------------------------------------------------------------ declarative reading of the route's part of the path
+   (proved of route.generate in Proofs/C17_text.v; shipped to the judge by run_C17x): percent-decoded as a whole it reads
+   literal, value, literal, .., star value *)
+Definition kw_text (is_star : bool) (v : kwval) : option text :=
+  match v with
+  | KScalar x => spec_text x
+  | KSeq l shown =>
+      if is_star then olet ts := map_opt spec_text l in Some (join [47] ts)
+      else if forallb valid_scalar shown then Some shown else None
+  end.
+Definition slot_text (p : pattern) (kw : list (text * kwval)) (n : text) : option text :=
+  olet v := assoc n kw in kw_text (is_star_key p n) v.
+Definition hole_text (p : pattern) (kw : list (text * kwval)) (h : text * text) : option text :=
+  olet t := slot_text p kw (fst h) in Some (t ++ snd h).
+Definition spec_path_text (p : pattern) (kw : list (text * kwval)) : option text :=
+  olet hs := map_opt (hole_text p kw) (p_holes p) in
+  olet st := match star_slot p with Some r => slot_text p kw r | None => Some [] end in
+  Some (p_prefix p ++ concat hs ++ st).
+
+
 (* ------------------------------------------------------------------ wire: the registrations a sequence of
    add_static_view statements leaves behind (round 6), everything else as before *)
 Definition c17_put_reg (g : reg) : val :=
@@ -83,5 +103,13 @@ Definition run_C17x (v : val) : val :=
                                         vlist (fun s : text * text * bool => VT (c17_static_pattern (fst (fst s))))
                                               (filter (fun s : text * text * bool => negb (snd s)) l)])
                   | None => None end)
+  | VL [VI 6%Z; inner; VL [pat; md; kw; sub]] =>
+      (* a generation case together with what the spec needs to read the route's part of the path:
+         the pattern, matchdict (current_route_url), keywords, asset sub-path (static_url) *)
+      ret_or_bad (olet p := get_pattern pat in olet md := get_kw md in olet kw := get_kw kw in
+                  olet sub := get_opt get_text sub in
+                  let kw1 := dupdate md kw in
+                  let kw2 := match sub with Some sp => dset static_subpath_key (KScalar (PStr sp)) kw1 | None => kw1 end in
+                  Some (VL [run_C17 inner; put_otext (spec_path_text p kw2)]))
   | _ => run_C17 v
   end.
